@@ -57,7 +57,7 @@ theorem decision_at_own_rung (s : RungSys) (m : Mode) (tid r : Nat) (v : Rat) (s
     (∃ pre post, s.rungs = pre ++ rg :: post ∧ res.1.rungs = pre ++ rg' :: post) ∧
     res.2.reached = true ∧
     (rg'.data.length < 2 → res.2.continues = true) ∧
-    (∀ c b, quantileAsc (rg'.ascVals m) (rg'.npQ m) = some c → cmpNoWorse m v c = .forced b →
+    (∀ c b, quantileAsc (rg'.ascVals m) (rg'.npQ m) = some c → cmpNoWorse m v c rg'.scale = .forced b →
         (res.2.continues = true ↔ m.noWorse v c)) := by
   intro res rg'
   obtain ⟨pre, post', hsplit⟩ := List.append_of_mem hmem
@@ -91,7 +91,7 @@ theorem decision_at_own_rung (s : RungSys) (m : Mode) (tid r : Nat) (v : Rat) (s
     have hcut : rg'.cutoff m = some c := by
       rw [cutoff_eq_numpy_quantile m rg' (by rw [hq']; exact hq0) (by rw [hq']; exact hq1)]; exact hcq
     rw [taskContinues_forced m v rg' hint c b hcut hf]
-    exact cmpNoWorse_forced m v c b hf
+    exact cmpNoWorse_forced m v c _ b hf
 
 /-- with fewer than two entries in the rung after insertion the trial continues
 (restated at the level of `_task_continues`). -/
@@ -168,8 +168,8 @@ theorem init_ok (m : Mode) (levels : List Nat) (qs : List Rat) (maxT : Nat) :
 
 /-- **Stop at the maximum resource.**  The bracket manager answers "do not continue" for
 every report with `resource ≥ max_t`, without touching any rung. -/
-theorem stop_at_max (g g' : Manager) (tid r : Nat) (v : Rat) (hint : Bool) (o : RepOut)
-    (h : g.taskReport tid r v hint = .ok (g', o)) (hr : g.maxT ≤ r) :
+theorem stop_at_max (g g' : Manager) (tid r : Nat) (v : Rat) (hint : Bool) (cost eps : Rat) (o : RepOut)
+    (h : g.taskReport tid r v hint cost eps = .ok (g', o)) (hr : g.maxT ≤ r) :
     o.continues = false ∧ g' = g := by
   have hlt : ¬ r < g.maxT := by omega
   unfold Manager.taskReport at h
@@ -186,55 +186,33 @@ theorem stop_at_max (g g' : Manager) (tid r : Nat) (v : Rat) (hint : Bool) (o : 
       subst ha; subst hb; simp
 
 /-- scheduler level: a live trial (recorded decision CONTINUE) whose report is not ignored
-gets STOP iff the rung system says "do not continue" (for `type="stopping"`; PAUSE below
-`max_t` for pause/resume types), else CONTINUE. -/
-theorem decision_follows_report (s s' : Sched) (tid r : Nat) (v : Rat) (hint : Bool) (o : ResOut)
-    (rec : TrialInfo) (g : Manager) (ro : RepOut)
+gets STOP iff the rung system says "do not continue" (for non-pause/resume types; PAUSE
+below `max_t` for pause/resume types), else CONTINUE. -/
+theorem decision_follows_report (s s' : Sched) (tid r : Nat) (v : Rat) (hint : Bool) (cost eps : Rat)
+    (o : ResOut) (rec : TrialInfo) (g : Manager) (ro : RepOut)
     (hrec : alookup tid s.active = some rec) (hlive : rec.decision = .continue)
-    (hrep : s.mgr.taskReport tid r v hint = .ok (g, ro)) (hig : ro.ignoreData = false)
-    (h : s.onResult tid r v hint = .ok (s', o)) :
+    (hrep : s.mgr.taskReport tid r v hint (s.totalCost tid cost) eps = .ok (g, ro))
+    (hig : ro.ignoreData = false)
+    (h : s.onResult tid r v hint cost eps = .ok (s', o)) :
     o.decision = (if ro.continues then Decision.continue
                   else if ¬ s.mgr.type.pauseResume ∨ s.mgr.maxT ≤ r then Decision.stop
                   else Decision.pause) ∧
-    (s.mgr.type = .stopping → ¬ ro.continues → o.decision = .stop) := by
+    (s.mgr.type.pauseResume = false → ¬ ro.continues → o.decision = .stop) := by
   unfold Sched.onResult at h
-  simp only [hrec, hlive, ne_eq, not_true_eq_false, if_false, hrep, hig, Bool.false_eq_true] at h
-  have hdec : o.decision = ({ s with mgr := g } : Sched).decisionFor r ro := by
-    dsimp only [Sched.onResultLive] at h
-    split at h
-    · cases h
-    · injection h with h
-      injection h with _ h2
-      rw [← h2]
+  simp only [hrec, hlive, ne_eq, not_true_eq_false, if_false, hrep] at h
+  have hdec := afterReport_decision s s' tid r v rec g ro _ o hig h
+  have hty := taskReport_type_maxT _ _ _ _ _ _ _ _ _ hrep
   rw [hdec]
-  · have hty : g.type = s.mgr.type ∧ g.maxT = s.mgr.maxT := by
-      unfold Manager.taskReport at hrep
-      cases h1 : alookup tid s.mgr.taskInfo with
-      | none => simp [h1] at hrep
-      | some b =>
-        simp only [h1] at hrep
-        cases h2 : s.mgr.systems[(s.mgr.sysFor b).1]? with
-        | none => simp [h2] at hrep
-        | some sys =>
-          simp only [h2] at hrep
-          split at hrep
-          · split at hrep
-            · cases hrep
-            · injection hrep with hrep
-              injection hrep with ha _
-              rw [← ha]; simp [Manager.setSys]
-          · injection hrep with hrep
-            injection hrep with ha _
-            rw [← ha]; simp
-    simp only [Sched.decisionFor, hty.1, hty.2]
-    refine ⟨trivial, ?_⟩
-    intro hst hnc
-    simp [hst, hnc, HBType.pauseResume]
+  simp only [Sched.decisionFor, hty.1, hty.2]
+  refine ⟨trivial, ?_⟩
+  intro hst hnc
+  simp [hst, hnc]
 
 /-- **A report after the decision repeats the decision and touches nothing.** -/
 theorem decided_repeats (s : Sched) (tid r : Nat) (v : Rat) (hint : Bool) (rec : TrialInfo)
+    (cost eps : Rat)
     (hrec : alookup tid s.active = some rec) (hdec : rec.decision ≠ .continue) :
-    ∃ o, s.onResult tid r v hint = .ok (s, o) ∧ o.decision = rec.decision := by
+    ∃ o, s.onResult tid r v hint cost eps = .ok (s, o) ∧ o.decision = rec.decision := by
   unfold Sched.onResult
   simp only [hrec, hdec, ne_eq, not_false_eq_true, if_true]
   exact ⟨_, rfl, rfl⟩
@@ -306,7 +284,7 @@ numpy's 1/3-quantile is 2, so a trial with value 2 continues and one with 3 stop
 example :
     let rg : Rung := { level := 1, q := 1/3, data := [⟨0, 1, false, 0⟩, ⟨1, 2, false, 0⟩, ⟨2, 3, false, 0⟩, ⟨3, 4, false, 0⟩] }
     rg.cutoff .min = some 2 ∧ quantileAsc (rg.ascVals .min) (rg.npQ .min) = some 2 ∧
-    cmpNoWorse .min 1 2 = .forced true ∧ cmpNoWorse .min 3 2 = .forced false := by
+    cmpNoWorse .min 1 2 rg.scale = .forced true ∧ cmpNoWorse .min 3 2 rg.scale = .forced false := by
   decide +kernel
 
 example : RungsDecr (mkRungSys [1, 3] (promoteQuantiles [1, 3] 9) 9).rungs := by
